@@ -74,11 +74,14 @@ func listItemsText(items []layout.ListItem, sb *strings.Builder) {
 	}
 }
 
-func elemView(es []layout.LayoutElement, ps []layout.Paragraph) view {
-	v := view{hasS: true, facets: []string{"Element.Lines[].Fragments", "Element.Text"}}
-	var elemLines [][]text.TextFragment
+// elemView judges what the elements themselves carry (Text); with details=true it judges instead what hangs off
+// each element: Heading.Text / Paragraph.Text / the items of List, and the fragments in their lines. The two are
+// separate observation points because they fail independently.
+func elemView(es []layout.LayoutElement, ps []layout.Paragraph, details bool) view {
+	v := view{hasS: true}
+	var lines [][]text.TextFragment
+	seenPtr := map[interface{}]bool{}
 	for _, e := range es {
-		v.strs = append(v.strs, e.Text)
 		k := "paragraph"
 		switch e.Type {
 		case model.ElementTypeHeading:
@@ -87,19 +90,48 @@ func elemView(es []layout.LayoutElement, ps []layout.Paragraph) view {
 			k = "list"
 		}
 		v.allKinds = append(v.allKinds, k)
-		if k == "list" && e.List != nil {
-			for _, it := range e.List.GetAllItems() {
-				elemLines = append(elemLines, lineGroups(it.Lines)...)
-			}
+		if !details {
+			v.strs = append(v.strs, e.Text)
 		} else {
-			elemLines = append(elemLines, lineGroups(e.Lines)...)
+			var ptr interface{}
+			switch {
+			case e.Heading != nil:
+				ptr = e.Heading
+				v.strs = append(v.strs, e.Heading.Text)
+				lines = append(lines, lineGroups(e.Heading.Lines)...)
+			case e.List != nil:
+				ptr = e.List
+				var sb strings.Builder
+				for _, it := range e.List.GetAllItems() {
+					sb.WriteString(it.Prefix + " " + it.Text + "\n")
+					lines = append(lines, lineGroups(it.Lines)...)
+				}
+				v.strs = append(v.strs, sb.String())
+			case e.Paragraph != nil:
+				ptr = e.Paragraph
+				v.strs = append(v.strs, e.Paragraph.Text)
+				lines = append(lines, lineGroups(e.Paragraph.Lines)...)
+			default:
+				v.strs = append(v.strs, "")
+			}
+			if ptr != nil {
+				// two elements hang on one and the same Heading/List/Paragraph object, or the object is not the one
+				// the element's own text was taken from
+				if seenPtr[ptr] || !sameNonSpace(v.strs[len(v.strs)-1], e.Text) {
+					v.override = "element-details-belong-to-another-element"
+				}
+				seenPtr[ptr] = true
+			}
 		}
 		if k != "paragraph" {
 			v.elemBox = append(v.elemBox, box{e.BBox.X, e.BBox.Y, e.BBox.Width, e.BBox.Height})
 			v.elemKind = append(v.elemKind, k)
 		}
 	}
-	v.moreGroups = [][][]text.TextFragment{elemLines}
+	if details {
+		v.hasG, v.groups = true, lines
+		v.facets = []string{"Element.{Heading,List,Paragraph} lines", "Element.{Heading,List,Paragraph} text"}
+	}
 	for _, p := range ps {
 		pi := paraInfo{box: box{p.BBox.X, p.BBox.Y, p.BBox.Width, p.BBox.Height}, frags: map[posKey]bool{}}
 		x0, y0, x1, y1 := 1e18, 1e18, -1e18, -1e18
@@ -213,7 +245,7 @@ var apis = []api{
 		if r.Paragraphs != nil {
 			ps = r.Paragraphs.Paragraphs
 		}
-		return elemView(r.Elements, ps)
+		return elemView(r.Elements, ps, false)
 	}},
 	{name: "Analyzer.Elements.dup", paras: true, family: "elements", aspect: "dup", part: 1, run1: func(fr []text.TextFragment) view {
 		r := layout.NewAnalyzer().Analyze(fr, pageW, pageH)
@@ -221,11 +253,23 @@ var apis = []api{
 		if r.Paragraphs != nil {
 			ps = r.Paragraphs.Paragraphs
 		}
-		return elemView(r.Elements, ps)
+		return elemView(r.Elements, ps, false)
+	}},
+	{name: "Analyzer.ElementDetails", paras: true, family: "elements", aspect: "loss", part: 1, run1: func(fr []text.TextFragment) view {
+		r := layout.NewAnalyzer().Analyze(fr, pageW, pageH)
+		var ps []layout.Paragraph
+		if r.Paragraphs != nil {
+			ps = r.Paragraphs.Paragraphs
+		}
+		return elemView(r.Elements, ps, true)
+	}},
+	{name: "Analyzer.QuickElementDetails", paras: true, family: "column+line", part: 1, run1: func(fr []text.TextFragment) view {
+		r := layout.NewAnalyzer().QuickAnalyze(fr, pageW, pageH)
+		return elemView(r.Elements, nil, true)
 	}},
 	{name: "Analyzer.QuickElements", paras: true, family: "column+line", part: 1, run1: func(fr []text.TextFragment) view {
 		r := layout.NewAnalyzer().QuickAnalyze(fr, pageW, pageH)
-		return elemView(r.Elements, nil)
+		return elemView(r.Elements, nil, false)
 	}},
 
 	// ---- Part 2: the public API on the same page written as a PDF --------------------------------
@@ -281,14 +325,21 @@ var apis = []api{
 	{name: "Elements", paras: true, family: "elements", aspect: "loss", part: 2, run2: func(p string) view {
 		es, err := tabula.Open(p).Elements()
 		ps, _ := tabula.Open(p).Paragraphs() // the paragraphs the element tree starts from (classification only)
-		v := elemView(es, ps)
+		v := elemView(es, ps, false)
+		v.err = err
+		return v
+	}},
+	{name: "ElementDetails", paras: true, family: "elements", aspect: "loss", part: 2, run2: func(p string) view {
+		es, err := tabula.Open(p).Elements()
+		ps, _ := tabula.Open(p).Paragraphs()
+		v := elemView(es, ps, true)
 		v.err = err
 		return v
 	}},
 	{name: "Elements.dup", paras: true, family: "elements", aspect: "dup", part: 2, run2: func(p string) view {
 		es, err := tabula.Open(p).Elements()
 		ps, _ := tabula.Open(p).Paragraphs() // the paragraphs the element tree starts from (classification only)
-		v := elemView(es, ps)
+		v := elemView(es, ps, false)
 		v.err = err
 		return v
 	}},
@@ -395,4 +446,9 @@ func countBlockMerges(fr []text.TextFragment) {
 			cur = bb{min(cur.x0, o.x0), min(cur.y0, o.y0), max(cur.x1, o.x1), max(cur.y1, o.y1), cur.top}
 		}
 	}
+}
+
+func sameNonSpace(a, b string) bool {
+	strip := func(s string) string { return strings.Join(strings.Fields(s), "") }
+	return strip(a) == strip(b)
 }
